@@ -28,7 +28,7 @@
 // channels fed by the fake node's request handlers and by the client's metrics hook.  The next
 // event is injected only when the client is quiescent: blocked in eth_subscribe (the node holds the
 // request), or back in the select of streamLogsToChan (signalled by
-// ExecutionClientLastFetchedBlock(head-follow+1), the last statement of the head case), or
+// the second ExecutionClientLastFetchedBlock call after a head, the last statement of the head case), or
 // terminated (channel closed).  A head the client will skip (below the follow distance or not
 // beyond its cursor) produces no signal; whether a head is skipped is decided from a cursor
 // reconstructed from the client's own outputs (metrics value, delivered block numbers); a wrong
@@ -97,9 +97,10 @@ func (r *recorder) Count(key string) { r.acts = append(r.acts, func(o *hx.Out) {
 // the request has been written and the moment the dispatch loop has registered that ("reqSent"):
 // the call is treated as still being sent and is not cancelled.  FilterLogs then never returns
 // and the stream hangs; this is a liveness matter outside C13 and depends on a race inside the
-// client library.  The driver cuts a connection during a fetch only dropDelay after the request
-// arrived, and if the client nevertheless stalls right after such a cut, the case is re-run (at
-// most 3 times, with a longer delay); a stall that persists is reported.
+// client library; it also hits eth_subscribe when the connection is cut right after the answer.
+// The driver cuts connections only dropDelay after the last request arrived, and if the client
+// nevertheless stalls right after a cut, the case is re-run (at most 3 times, with a longer
+// delay); a stall that persists is reported.
 func runCase(out *hx.Out, lines [][]string) {
 	delay := dropDelay
 	for attempt := 0; ; attempt++ {
@@ -329,7 +330,7 @@ type env struct {
 func (e *env) HandleBlockEventsStream(logs <-chan executionclient.BlockLogs, executeTasks bool) (uint64, error) {
 	if e.histMode {
 		e.histLast = 0
-		e.wait(logs, nil)
+		e.wait(logs, false)
 		return e.histLast, nil
 	}
 	e.streamLoop(logs)
@@ -396,9 +397,10 @@ func (e *env) flush() {
 	e.resetOp()
 }
 
-// wait serves the client until it is quiescent again and returns the new state.  await, if set, is
-// the metrics value that marks the end of the head case of streamLogsToChan.
-func (e *env) wait(logs <-chan executionclient.BlockLogs, await *uint64) int {
+// wait serves the client until it is quiescent again and returns the new state.  With head set,
+// the second ExecutionClientLastFetchedBlock call of the operation marks the end of the head case
+// of streamLogsToChan (the first one comes from fetchLogsInBatches when all batches are done).
+func (e *env) wait(logs <-chan executionclient.BlockLogs, head bool) int {
 	timer := time.NewTimer(stallTimeout)
 	defer timer.Stop()
 	for {
@@ -450,11 +452,11 @@ func (e *env) wait(logs <-chan executionclient.BlockLogs, await *uint64) int {
 			}
 		case v := <-e.met.ch:
 			e.ms = append(e.ms, v)
-			if await != nil && v == *await {
+			if head && len(e.ms) == 2 {
 				return stIdle
 			}
 		case <-timer.C:
-			if e.lastDrop && len(e.qs) > 0 && e.nq == e.fs.k+1 {
+			if e.lastDrop {
 				e.rec.retryable = true
 			}
 			return stStall
@@ -477,7 +479,7 @@ func (e *env) endStream(logs <-chan executionclient.BlockLogs) {
 	e.pending = nil
 	e.fs = failspec{}
 	for i := 0; i < 50; i++ {
-		s := e.wait(logs, nil)
+		s := e.wait(logs, false)
 		if s == stDone || s == stFatal || s == stStall {
 			break
 		}
@@ -507,7 +509,7 @@ func parseFail(w []string) failspec {
 // streamLoop runs the stream events of the case; it is the body of the event handler.
 func (e *env) streamLoop(logs <-chan executionclient.BlockLogs) {
 	e.fs = failspec{}
-	e.state = e.wait(logs, nil)
+	e.state = e.wait(logs, false)
 	e.status() // status after the STREAM operation itself
 	for e.pos < len(e.lines) && (e.state == stSub || e.state == stIdle) {
 		w := e.lines[e.pos]
@@ -551,7 +553,7 @@ func (e *env) event(logs <-chan executionclient.BlockLogs, w []string) {
 		e.pending.reply <- false
 		<-e.pending.ready
 		e.pending = nil
-		e.state = e.wait(logs, nil)
+		e.state = e.wait(logs, false)
 	case "HEAD":
 		if e.state != stIdle {
 			e.out.Obs("ign")
@@ -566,10 +568,9 @@ func (e *env) event(logs <-chan executionclient.BlockLogs, w []string) {
 		if h < e.follow || h-e.follow < e.cursor {
 			break // the client ignores this head: nothing to wait for
 		}
-		await := h - e.follow + 1
-		e.state = e.wait(logs, &await)
+		e.state = e.wait(logs, true)
 		if e.state == stIdle {
-			e.cursor = await
+			e.cursor = e.ms[1] // the client's own report of where it continues
 			e.mon.complete(h - e.follow)
 		}
 	case "SUBERR":
@@ -578,18 +579,20 @@ func (e *env) event(logs <-chan executionclient.BlockLogs, w []string) {
 			return
 		}
 		e.node.notifyBogus()
-		e.state = e.wait(logs, nil)
+		e.state = e.wait(logs, false)
 	case "DROP":
 		if e.state != stIdle {
 			e.out.Obs("ign")
 			return
 		}
+		time.Sleep(e.delay) // see runCase: the client must have finished sending its last request
 		e.node.lis.cutAll()
-		e.state = e.wait(logs, nil)
+		e.lastDrop = true
+		e.state = e.wait(logs, false)
 	case "CANCEL":
 		e.cancelOp()
 		e.pending = nil // a pending eth_subscribe stays unanswered, see endStream
-		e.state = e.wait(logs, nil)
+		e.state = e.wait(logs, false)
 	}
 	e.status()
 }
